@@ -46,6 +46,7 @@ type Event struct {
 	Err       string
 	Debug     string
 	SizeUpd   []uint32
+	Limit     int64 // the receiver's MAX_FRAME_SIZE in force when the frame(s) arrived
 }
 
 // Seen is a request as the handler saw it through the fasthttp API.
@@ -516,6 +517,7 @@ func (h *H) readLoop() {
 	flush := func() {
 		e := Event{Kind: "headers", Stream: blockStream, EndStream: blockEnd, Frames: blockFrames, Length: blockMax}
 		h.mu.Lock()
+		e.Limit = h.MaxFrame
 		fields, err := h.Dec.DecodeBlock(block)
 		e.SizeUpd = append([]uint32(nil), h.Dec.SawUpdates...)
 		h.mu.Unlock()
@@ -673,10 +675,16 @@ func (h *H) snapshot() snap {
 
 func (s snap) quiet() bool {
 	if s.served {
-		// the connection handler is gone: only our own reader has to catch up
+		// the connection handler is gone and has closed the connection: our own
+		// reader has to reach the end of what was written (or be held on purpose)
 		return s.readerGone || (s.unreadC == 0 && s.parkedC)
 	}
 	e := s.ev
+	if e[http2.VerifEvReadLoopExit] > 0 {
+		// the read loop has ended, so ServeConn is on its way out (bounded by its
+		// own drain timeout): the connection is only quiet once it has returned
+		return false
+	}
 	readDone := e[http2.VerifEvReadLoopExit] > 0
 	streamDone := e[http2.VerifEvStreamLoopExit] > 0
 	writeDone := e[http2.VerifEvWriteLoopExit] > 0
